@@ -22,7 +22,7 @@ DANGEROUS_ROOTS = ("os", "posix", "nt", "subprocess", "sys", "socket", "shutil",
 NONSTD_MODULES = ("numpy", "torch", "torch._utils", "foo.bar", "pandas", "verif_canary",
                   "numpy.core.multiarray", "torch.storage", "sklearn.svm")  # fmt: skip
 BENIGN_MODULES = ("collections", "datetime", "fractions", "decimal", "copyreg", "operator",
-                  "functools", "pickle")  # fmt: skip
+                  "functools", "pickle", "shlex")  # fmt: skip
 
 # attribute names that individual rules special-case
 SPECIAL_ATTRS = (
